@@ -679,6 +679,124 @@ fn amounts(seed: u64, n: u64) {
     }
 }
 
+// ------------------------------------------------------------------ conversions: Decimal <-> TokenAmount, heads, float widths
+fn dec_mantissa(r: &mut Rng) -> u128 {
+    let k = r.below(29) as u32;
+    let p = 10u128.pow(k);
+    let max96: u128 = (1u128 << 96) - 1;
+    let m = match r.below(16) {
+        0 => 0, 1 => 1, 2 => (5 * p).saturating_sub(1), 3 => 5 * p, 4 => 5 * p + 1, 5 => p, 6 => p - 1,
+        7 => u64::MAX as u128, 8 => u64::MAX as u128 + 1, 9 => (u64::MAX as u128).saturating_mul(p.min(10u128.pow(9))) + r.below(3) as u128 - 1,
+        10 => max96, 11 => max96 / 10 + r.below(3) as u128 - 1,
+        12 => ((r.next() as u128) << 64 | r.next() as u128) & max96,
+        13 => { let q = r.below(1000) as u128; q * p + *r.pick(&[4u128, 5, 9]) * (p / 10) + *r.pick(&[0u128, 0, 1]) * r.below(7) as u128 }   // first dropped digit 4/5/9
+        14 => { let q = 999 + 1000 * r.below(50) as u128; q * p + p / 2 - r.below(2) as u128 }                                               // carry ...999.5
+        _ => r.below(100000) as u128,
+    };
+    m.min(max96)
+}
+fn conv_mode(seed: u64, n: u64) {
+    use rust_decimal::Decimal;
+    let mut r = Rng::new(seed ^ 0x7c0);
+    // ---- decimals
+    for _ in 0..n {
+        let m = dec_mantissa(&mut r);
+        let sc = match r.below(4) { 0 => *r.pick(&[0u32, 1, 27, 28]), _ => r.below(29) as u32 };
+        let d = match r.below(6) { 0 => sc as u8, 1 => sc.saturating_sub(1) as u8, 2 => (sc + 1) as u8, 3 => *r.pick(&[0u8, 28, 29, 30, 255]), _ => r.below(31) as u8 };
+        let neg = r.chance(1, 5);
+        let x = Decimal::from_parts(m as u32, (m >> 32) as u32, (m >> 64) as u32, neg, sc);
+        for (rule, rn) in [(ConversionRule::Exact, "Exact"), (ConversionRule::AllowRounding, "AllowRounding")] {
+            let res = guarded(|| TokenAmount::try_from_rust_decimal(x, d, rule));
+            let rj = match &res {
+                Ok(Ok(b)) => json!([0, b.value().to_string(), b.decimals()]),
+                Ok(Err(TokenAmountConversionError::RustDecimal(_))) => json!([1, "0", 0]),
+                Ok(Err(TokenAmountConversionError::ValueOverflow)) => json!([2, "0", 0]),
+                Ok(Err(TokenAmountConversionError::LossOfPrecision)) => json!([3, "0", 0]),
+                Err(_) => json!("PANIC"),
+            };
+            println!("{}", json!({"k":"dec","neg":neg,"m":m.to_string(),"sc":sc,"d":d,"rule":rn,"r":rj}));
+        }
+    }
+    for _ in 0..n / 4 {
+        let a = TokenAmount::gen(&mut r);
+        let res = guarded(|| a.try_to_rust_decimal());
+        let rj = match &res { Ok(Ok(x)) => json!([x.is_sign_negative(), x.mantissa().unsigned_abs().to_string(), x.scale()]), Ok(Err(_)) => json!("ERR"), Err(_) => json!("PANIC") };
+        let back = match &res { Ok(Ok(x)) => match guarded(|| TokenAmount::try_from_rust_decimal(*x, a.decimals(), ConversionRule::Exact)) { Ok(Ok(b)) => json!(b == a), _ => json!("ERR") }, _ => J::Null };
+        println!("{}", json!({"k":"todec","value":a.value().to_string(),"decimals":a.decimals(),"r":rj,"back":back}));
+    }
+    // ---- heads: every major type x every boundary argument x every width that holds it, truncations, reserved infos
+    let bounds: [u64; 12] = [0, 1, 23, 24, 255, 256, 65535, 65536, 4294967295, 4294967296, u64::MAX - 1, u64::MAX];
+    let pull = |b: &[u8]| -> J {
+        let res = guarded(|| { let mut d = ciborium_ll::Decoder::from(b); let h = d.pull(); (h, d.offset()) });
+        match res {
+            Ok((Ok(h), off)) => { use ciborium_ll::Header::*; let o = |x: Option<usize>| x.map(|n| n.to_string());
+                json!({"off": off, "h": match h { Positive(n) => json!(["HPos", n.to_string()]), Negative(n) => json!(["HNeg", n.to_string()]), Float(f) => json!(["HFloat", f.to_bits().to_string()]),
+                    Simple(n) => json!(["HSimple", n.to_string()]), Tag(n) => json!(["HTag", n.to_string()]), Break => json!(["HBreak"]), Bytes(x) => json!(["HBytes", o(x)]), Text(x) => json!(["HText", o(x)]),
+                    Array(x) => json!(["HArray", o(x)]), Map(x) => json!(["HMap", o(x)]) }}) }
+            Ok((Err(_), _)) => json!("ERR"), Err(_) => json!("PANIC") }
+    };
+    let mut heads: Vec<(String, Vec<u8>)> = vec![];
+    for major in 0u8..8 {
+        for &a in &bounds {
+            for (info, w) in [(24u8, 1usize), (25, 2), (26, 4), (27, 8)] {
+                if w < 8 && a >> (8 * w) != 0 { continue }
+                let mut b = vec![major << 5 | info]; b.extend(&a.to_be_bytes()[8 - w..]);
+                let short = (a < 24) || (w > 1 && a < 256) || (w > 2 && a < 65536) || (w > 4 && a >> 32 == 0);
+                heads.push((if short { "nonshortest".into() } else { "shortest".into() }, b.clone()));
+                let cut = r.below(w as u64) as usize; let mut t = b.clone(); t.truncate(1 + cut); heads.push(("truncated".into(), t));
+                if r.chance(1, 3) { let k = 1 + r.below(3) as usize; b.extend(r.bytes(k)); heads.push(("trailing".into(), b)); }
+            }
+            if a < 24 { heads.push(("immediate".into(), vec![major << 5 | a as u8])) }
+        }
+        for info in 24u8..32 { heads.push((format!("info{}", info), { let mut b = vec![major << 5 | info]; b.extend(r.bytes(9)); b })); }
+    }
+    heads.push(("empty".into(), vec![]));
+    for _ in 0..n / 4 { let l = r.below(11) as usize; heads.push(("random".into(), r.bytes(l))); }
+    for (cl, b) in &heads { println!("{}", json!({"k":"pull","class":cl,"hex":hex(b),"r":pull(b)})); }
+    // push: every kind of header
+    let push = |h: ciborium_ll::Header| -> J {
+        match guarded(|| { let mut out = Vec::new(); let mut e = ciborium_ll::Encoder::from(&mut out); e.push(h).map(|_| ()).map_err(|_| ()).ok(); out }) { Ok(b) => json!(hex(&b)), Err(_) => json!("PANIC") }
+    };
+    for &a in &bounds {
+        use ciborium_ll::Header::*;
+        for (name, h) in [("HPos", Positive(a)), ("HNeg", Negative(a)), ("HTag", Tag(a))] { println!("{}", json!({"k":"push","h":[name, a.to_string()],"r":push(h)})); }
+        for (name, h) in [("HBytes", Bytes(Some(a as usize))), ("HText", Text(Some(a as usize))), ("HArray", Array(Some(a as usize))), ("HMap", Map(Some(a as usize)))] { println!("{}", json!({"k":"push","h":[name, Some(a.to_string())],"r":push(h)})); }
+    }
+    { use ciborium_ll::Header::*;
+      for (name, h) in [("HBytes", Bytes(None)), ("HText", Text(None)), ("HArray", Array(None)), ("HMap", Map(None))] { println!("{}", json!({"k":"push","h":[name, J::Null],"r":push(h)})); }
+      println!("{}", json!({"k":"push","h":["HBreak"],"r":push(Break)}));
+      for s in 0u16..256 { println!("{}", json!({"k":"push","h":["HSimple", s.to_string()],"r":push(Simple(s as u8))})); } }
+    // ---- floats
+    let mut fl: Vec<(&'static str, u64)> = vec![];
+    let h2d = |h: u16| -> u64 { // exact widening of a binary16 pattern (independent of the half crate)
+        let s = (h as u64 >> 15) << 63; let e = (h >> 10) & 31; let m = (h & 1023) as u64;
+        let mag = if e == 0 { (m as f64) * 2f64.powi(-24) } else if e == 31 { if m == 0 { f64::INFINITY } else { f64::NAN } } else { (1.0 + m as f64 / 1024.0) * 2f64.powi(e as i32 - 15) };
+        s | mag.to_bits() };
+    for h in [0u16, 1, 2, 0x3ff, 0x400, 0x401, 0x3c00, 0x7bff, 0x7c00] { for sg in [0u16, 0x8000] { let b = h2d(h | sg); fl.push(("f16edge", b)); fl.push(("f16edge+1", b.wrapping_add(1))); fl.push(("f16edge-1", b.wrapping_sub(1))); } }
+    for x in [0u32, 1, 2, 0x7fffff, 0x800000, 0x800001, 0x3f800000, 0x7f7fffff, 0x7f800000, 0x33800000, 0x33000000, 0x477fe000, 0x477ff000, 0x47800000] {
+        for sg in [0u32, 0x80000000] { let b = (f32::from_bits(x | sg) as f64).to_bits(); fl.push(("f32edge", b)); fl.push(("f32edge+1", b.wrapping_add(1))); fl.push(("f32edge-1", b.wrapping_sub(1))); } }
+    for b in [1u64, 0x000fffffffffffff, 0x0010000000000000, 0x7fefffffffffffff, 0x47efffffe0000001, 0x47effffff0000000, 0x47f0000000000000, 0x36a0000000000000, 0x3690000000000000, 0x3e70000000000000, 0x3e60000000000000, 0x3e78000000000000, 0x40effc0000000000, 0x40effe0000000000, 0x40f0000000000000] { fl.push(("f64edge", b)); fl.push(("f64edge", b | 1 << 63)); }
+    for pay in [0u64, 1, 1 << 41, 1 << 42, 1 << 28, 1 << 29, (1 << 51) - 1, 0x3ff << 42, 0x155 << 42, 0x2aaaaa << 29, 0x7fffff << 29 & ((1 << 51) - 1)] {
+        for q in [0u64, 1 << 51] { for sg in [0u64, 1 << 63] { let b = sg | 0x7ff << 52 | q | pay; if b << 12 != 0 { fl.push((if q == 0 { "snan" } else { "qnan" }, b)) } } } }
+    for _ in 0..n / 4 { fl.push(("rand16", h2d(r.next() as u16))); fl.push(("rand32", (f32::from_bits(r.next() as u32) as f64).to_bits())); fl.push(("rand64", r.next())); fl.push(("rand32+1", (f32::from_bits(r.next() as u32) as f64).to_bits() ^ 1 << r.below(30))); }
+    for (cl, b) in &fl {
+        let f = f64::from_bits(*b);
+        let e = enc(&f);
+        let back = e.as_ref().ok().and_then(|e| dec_opts::<f64>(e, true).ok()).map(|g| g.to_bits().to_string());
+        println!("{}", json!({"k":"fenc","class":cl,"bits":b.to_string(),"nan":f.is_nan(),"hex":match &e { Ok(b) => hex(b), Err(s) => s.clone() },"back":back}));
+    }
+    let mut pats: Vec<(u8, u64)> = vec![];
+    for h in [0u16, 1, 0x3ff, 0x400, 0x3c00, 0x7bff, 0x7c00, 0x7c01, 0x7dff, 0x7e00, 0x7e01, 0x7fff, 0xfe01, 0xfc00, 0x8000, 0x8001] { pats.push((2, h as u64)) }
+    for x in [0u32, 1, 0x7fffff, 0x800000, 0x3f800000, 0x7f7fffff, 0x7f800000, 0x7f800001, 0x7fbfffff, 0x7fc00000, 0x7fc00001, 0xffffffff, 0x80000000, 0x80000001, 0x00400000, 0x00000100] { pats.push((4, x as u64)) }
+    for _ in 0..n / 4 { pats.push((2, r.next() & 0xffff)); pats.push((4, r.next() & 0xffff_ffff)); pats.push((8, r.next())); }
+    for (_, b) in &fl { if pats.len() % 3 == 0 { pats.push((8, *b)) } else { pats.push((4, *b >> 32)) } }
+    for (w, bits) in &pats {
+        let mut b = vec![match w { 2 => 0xf9u8, 4 => 0xfa, _ => 0xfb }]; b.extend(&bits.to_be_bytes()[8 - *w as usize..]);
+        let d = dec_opts::<f64>(&b, true);
+        println!("{}", json!({"k":"fdec","w":w,"bits":bits.to_string(),"r": match d { Ok(f) => json!(f.to_bits().to_string()), Err(s) => json!(s) }}));
+    }
+}
+
 // ------------------------------------------------------------------ long strings: many 4096-byte read chunks
 const CHUNK: usize = 4096;
 /// A text of `chunks` read chunks in which a code point straddles every boundary selected by `sel`.
@@ -803,6 +921,7 @@ fn main() {
         Some("dispatch") => dispatch(num(2), num(3)),
         Some("amounts") => amounts(num(2), num(3)),
         Some("deep") => deep(num(2)),
+        Some("conv") => conv_mode(num(2), num(3)),
         Some("chunks") => chunks_mode(num(2), num(3).max(3), num(4).max(1)),
         Some("replay-bytes") => {
             let b = hlib::unhex(&a[2]);
